@@ -7,7 +7,7 @@ import ast
 from ..interp import fresh
 from ..loader import AnalysisError
 from ..terms import K, NONE, ONE, S, T_add, T_sub, ZERO, show_norm, subterms
-from .common import Context
+from .common import Context, backing_attr, one_data_attr
 from .problemterms import ACTION, EVENT, STATE, cfgsym, probability_term, problem_interp
 from .solverterms import brief, same
 
@@ -217,7 +217,7 @@ def _demoor(ctx, col):
             f"sum(table) = {brief(tot, 200)}: the censored tail is not folded back, probabilities do not sum to one", text="tail folding identity")
     D = cfgsym("max_demand")
     n = length_of(table)
-    ev = I.attrs.get("_random_event_space")
+    ev = I.attrs.get(backing_attr(ctx, cls, "random_event_space"))
     nev = length_of(ev) if ev is not None else None
     ok = n is not None and n == T_add(D, ONE) and nev == n
     idx_ok = table[0] == "atadd" and table[2] in (K(-1), D)
@@ -243,7 +243,7 @@ def _mirjalili(ctx, col):
             "table has max_demand+1 entries; tail folded into index max_demand (the last)" if ok else
             f"table length {show_norm(n) if n else None}, folded at {show_norm(t[2]) if t[0] == 'atadd' else None}", text="table length vs events")
     # event space: full cross product of demands and valid splits
-    ev = I.attrs.get("_random_event_space")
+    ev = I.attrs.get(backing_attr(ctx, cls, "random_event_space"))
     d = fresh("dim")
     splits = ("app", "itertools.product", (("star", ("app", "listcomp", (m, ("lam", d, "dim", ("app", "range", (T_add(Q, ONE),)))))),))
     # the comprehension ranges over range(max_useful_life): one factor per age class
@@ -274,7 +274,7 @@ def _mirjalili(ctx, col):
     col.add("R13.3", "MirjaliliPlateletPerishable._construct_random_event_space", o2.module.relpath, f2.lineno, okm,
             "one split component per age class (max_useful_life), each in 0..max_order_quantity" if okm else
             "split components are not range(max_order_quantity+1) for each of max_useful_life ages", text="split components")
-    act = I.attrs.get("_action_space")
+    act = I.attrs.get(backing_attr(ctx, cls, "action_space"))
     oka = act == ("app", "arange", (ZERO, T_add(Q, ONE)))
     o3, f3 = ctx.ct.require(cls, "_construct_action_space")
     col.add("R13.3", "MirjaliliPlateletPerishable._construct_action_space", o3.module.relpath, f3.lineno, oka,
@@ -328,7 +328,7 @@ def _hendrix_pairs(ctx, col):
 def _forest(ctx, col):
     cls = ctx.ct.get("Forest")
     I = problem_interp(ctx, cls)
-    t = I.attrs.get("_probability_matrix")
+    t = I.attrs.get(one_data_attr(ctx, cls, "random_event_probability", "subscript", "probability table"))
     o, f = ctx.ct.require(cls, "__init__")
     if t is None or t[0] != "app" or t[1] != "array":
         raise AnalysisError("anchor vanished: Forest._probability_matrix literal")
